@@ -226,6 +226,27 @@ def _judge(case):
             err = render_ok(str(cm3), {tuple(before) + ('then', 'ok')})
             if err or not isinstance(cm3, Comment):
                 bad(f'render-after-refused-{how}-and-retry', f'{err} type={type(cm3).__name__}')
+        # EMBEDDING: a comment made FROM a block of code (the commented-out version next to the live one) - by construction, by
+        # append, by += onto an empty comment - shares nothing with it: extending either one never shows in the other
+        for how in ('ctor', 'append', 'iadd', 'ctor-of-comment'):
+            code = TextBlock(R.build(enc, TextBlock)) if how != 'ctor-of-comment' else Comment(R.build(enc, TextBlock))
+            code_before = list(code.lines)
+            if how.startswith('ctor'):
+                cm4 = Comment(code)
+            elif how == 'append':
+                cm4 = Comment()
+                cm4.append(code)
+            else:
+                cm4 = Comment()
+                cm4 += code
+            cm4 += 'added to the comment'
+            if list(code.lines) != code_before:
+                bad(f'comment-shares-lines-with-its-source:{how}', f'source block now {code.lines!r}')
+                continue
+            code.append('int added_to_the_code;')
+            pieces = union_split(str(cm4))
+            if any(not p.startswith('//') for p in pieces) or any('added_to_the_code' in p for p in pieces):
+                bad(f'source-block-shares-lines-with-the-comment:{how}', f'{pieces!r}')
         # as part of a bigger block (how the generator uses it)
         blk = TextBlock([Comment(R.build(enc, TextBlock)), 'int code;'])
         pieces = union_split(str(blk))
